@@ -305,7 +305,9 @@ def ident(bundle):
     pri = bundle['primary']
     base = (pri['src'], pri['create_time'], pri['seqno'])
     if pri['flags'] & FLAG_IS_FRAGMENT:
-        base += (pri['frag_offset'], pri['total_adu_len'])
+        # a fragment is identified by its own extent: offset and payload length
+        pay = payload_of(bundle)
+        base += (pri['frag_offset'], len(pay['data']) if pay is not None else None)
     return base
 
 
